@@ -13,18 +13,18 @@ Definition nonseries_o (o : oentry) : bool :=
   match o with OSeries _ _ | ONhcb _ _ => false | _ => true end.
 Definition nonseries_b (e : bentry) : bool := match e with BSeries _ _ => false | _ => true end.
 
-Lemma process_nhcb_shape : forall p b p' fl,
-  process_nhcb p = (b, p', fl) -> fl = [] \/ exists s n, fl = [ONhcb s n].
+Lemma process_nhcb_shape : forall c p b p' fl,
+  process_nhcb c p = (b, p', fl) -> fl = [] \/ exists s n, fl = [ONhcb s n].
 Proof.
-  intros p b p' fl H. unfold process_nhcb in H.
+  intros c p b p' fl H. unfold process_nhcb in H.
   destruct (p_state p); try (inversion H; auto; fail).
   destruct (convert (p_tmp p)) as [n|]; [|inversion H; auto].
   destruct (validate n); inversion H; subst; [right; eauto | auto].
 Qed.
 
-Lemma process_nhcb_not_collecting : forall p,
-  p_state p <> SCollecting -> process_nhcb p = (false, p, []).
-Proof. intros p H. unfold process_nhcb. destruct (p_state p); congruence. Qed.
+Lemma process_nhcb_not_collecting : forall c p,
+  p_state p <> SCollecting -> process_nhcb c p = (false, p, []).
+Proof. intros c p H. unfold process_nhcb. destruct (p_state p); congruence. Qed.
 
 Section Steps.
 Variable parse_le : string -> option num.
@@ -50,7 +50,7 @@ Lemma step_series_eq : forall p s v,
   match p_state q with
   | SCollecting =>
       if different_metric q (s_lset s) then
-        let '(_, p1, fl) := process_nhcb q in
+        let '(_, p1, fl) := process_nhcb c q in
         let '(p2, out) := emit_series c (handle_classic parse_le c p1 s v) s v in
         (p2, fl ++ out)
       else emit_series c (handle_classic parse_le c q s v) s v
@@ -84,7 +84,7 @@ Proof.
     + destruct (emit_series c (handle_classic parse_le c q s v) s v) as [p2 o2] eqn:E.
       injection H as <- <-. exists [], o2. split; [reflexivity|]. split; [auto|]. eapply Tail; eauto.
     + destruct (different_metric q (s_lset s)).
-      * destruct (process_nhcb q) as [[b p1] fl] eqn:EP.
+      * destruct (process_nhcb c q) as [[b p1] fl] eqn:EP.
         destruct (emit_series c (handle_classic parse_le c p1 s v) s v) as [p2 o2] eqn:E.
         injection H as <- <-. exists fl, o2. split; [reflexivity|].
         split; [eapply process_nhcb_shape; eauto|]. eapply Tail; eauto.
@@ -96,10 +96,10 @@ Proof.
       * destruct (emit_series c (false, q) s v) as [p2 o2] eqn:E.
         injection H as <- <-. exists [], o2. split; [reflexivity|]. split; [auto|]. eapply Tail; eauto.
   - inversion H; subst. exists [], [OHist s hid]. auto.
-  - match type of H with context [process_nhcb ?q] => destruct (process_nhcb q) as [[b p1] fl] eqn:EP end.
+  - match type of H with context [process_nhcb c ?q] => destruct (process_nhcb c q) as [[b p1] fl] eqn:EP end.
     inversion H; subst. exists fl, [OType n t]. split; [reflexivity|].
     split; [eapply process_nhcb_shape; eauto | reflexivity].
-  - destruct (process_nhcb p) as [[b0 p1] fl] eqn:EP.
+  - destruct (process_nhcb c p) as [[b0 p1] fl] eqn:EP.
     inversion H; subst. exists fl, [OOther k a b]. split; [reflexivity|].
     split; [eapply process_nhcb_shape; eauto | reflexivity].
 Qed.
@@ -156,9 +156,9 @@ Proof.
 Qed.
 
 Lemma final_flush_shape : forall p, 
-  snd (process_nhcb p) = [] \/ exists s n, snd (process_nhcb p) = [ONhcb s n].
+  snd (process_nhcb c p) = [] \/ exists s n, snd (process_nhcb c p) = [ONhcb s n].
 Proof.
-  intros p. destruct (process_nhcb p) as [[b p'] fl] eqn:E. simpl.
+  intros p. destruct (process_nhcb c p) as [[b p'] fl] eqn:E. simpl.
   eapply process_nhcb_shape; eauto.
 Qed.
 
@@ -183,7 +183,145 @@ Proof.
   apply app_nil_r.
 Qed.
 
+
+(* ------------------------------------------------------------------ native histogram inhibits *)
+
+Lemma labels_eqb_refl : forall l, labels_eqb l l = true.
+Proof.
+  induction l as [|[k v] r IH]; [reflexivity|]. simpl. rewrite !String.eqb_refl, IH. reflexivity.
+Qed.
+
+Lemma step_inhibited : forall q s v,
+  p_state q = SInhibiting -> different_metric q (s_lset s) = false ->
+  step parse_le c q (BSeries s v) = (set_ts q (s_ts s), [OSeries s v]).
+Proof.
+  intros q s v Hs Hd. rewrite step_series_eq. cbv zeta.
+  replace (p_state (set_ts q (s_ts s))) with SInhibiting by (symmetry; exact Hs).
+  replace (different_metric (set_ts q (s_ts s)) (s_lset s)) with false by (symmetry; exact Hd).
+  unfold emit_series, out_series. simpl. rewrite Hs. destruct s; reflexivity.
+Qed.
+
+Lemma run_from_cons : forall p e r,
+  run_from parse_le c p (e :: r) =
+  let '(p1, o1) := step parse_le c p e in
+  let '(p2, o2) := run_from parse_le c p1 r in (p2, o1 ++ o2).
+Proof. reflexivity. Qed.
+
+Theorem native_inhibits : forall p s hid ss,
+  p_typ p = T_HISTOGRAM ->
+  Forall (fun sv : sample * num =>
+            snd (base_name (lget (s_lset (fst sv)) NAME)) = lget (s_lset s) NAME /\
+            without (s_lset (fst sv)) [LE] = without (s_lset s) []) ss ->
+  let p1 := fst (step parse_le c p (BHist s hid)) in
+  exists p2,
+    run_from parse_le c p1 (map (fun sv => BSeries (fst sv) (snd sv)) ss) =
+      (p2, map (fun sv => OSeries (fst sv) (snd sv)) ss) /\
+    snd (process_nhcb c p2) = [].
+Proof.
+  intros p s hid ss Ht Hall p1.
+  assert (Inv : p_state p1 = SInhibiting /\ p_typ p1 = T_HISTOGRAM /\
+                p_lastname p1 = lget (s_lset s) NAME /\ p_lasthash p1 = without (s_lset s) []).
+  { subst p1. simpl. auto. }
+  clearbody p1. revert p1 Inv.
+  induction Hall as [|[s1 v1] r [Hn Hk] _ IH]; intros p1 [Hs [Hty [Hln Hlh]]].
+  - exists p1. split; [reflexivity|]. rewrite process_nhcb_not_collecting; [reflexivity | congruence].
+  - simpl in Hn, Hk.
+    assert (Hd : different_metric p1 (s_lset s1) = false).
+    { unfold different_metric. rewrite Hty, Z.eqb_refl. simpl.
+      rewrite Hln, Hn, String.eqb_refl. simpl. rewrite Hlh, Hk, labels_eqb_refl. reflexivity. }
+    destruct (IH (set_ts p1 (s_ts s1))) as [p2 [Hr Hf]]; [simpl; auto|].
+    exists p2. split; [|exact Hf].
+    rewrite map_cons, run_from_cons. cbn [fst snd].
+    rewrite (step_inhibited p1 s1 v1 Hs Hd), Hr. reflexivity.
+Qed.
+
+
+(* ------------------------------------------------------------------ one classic histogram *)
+
+Definition suffix_of (u : upd) : suffix :=
+  match u with UBucket _ => SufBucket | UCount => SufCount | USum => SufSum end.
+
+(* [s] is a classic series of histogram [n] for the label set [key], in role [u] *)
+Definition member (n : string) (key : labels) (s : sample) (u : upd) : Prop :=
+  base_name (lget (s_lset s) NAME) = (suffix_of u, n) /\
+  without (s_lset s) [LE] = key /\
+  match u with
+  | UBucket le => lhas (s_lset s) LE = true /\ parse_le (lget (s_lset s) LE) = Some le /\
+                  num_eqb le NaN = false
+  | _ => True
+  end.
+
+Definition apply_u (t : temph) (u : upd) (v : num) : option temph :=
+  match u, v with
+  | USum, _ => Some (set_sum t v)
+  | UCount, Fin z => Some (set_count t z)
+  | UBucket le, Fin z => set_bucket t le z
+  | _, _ => None
+  end.
+
+Definition mem := (sample * num * upd)%type.
+Definition m_sample (m : mem) : sample := fst (fst m).
+Definition m_val (m : mem) : num := snd (fst m).
+Definition m_upd (m : mem) : upd := snd m.
+
+Fixpoint apply_all (t : temph) (ms : list mem) : option temph :=
+  match ms with
+  | [] => Some t
+  | m :: r => match apply_u t (m_upd m) (m_val m) with Some t' => apply_all t' r | None => None end
+  end.
+
+Lemma handle_member : forall p n key s v u,
+  p_typ p = T_HISTOGRAM -> p_bname p = n -> member n key s u ->
+  handle_classic parse_le c p s v = (true, process_classic c p s v n u).
+Proof.
+  intros p n key s v u Ht Hb [Hbn [_ Hu]]. unfold handle_classic.
+  rewrite Ht, Z.eqb_refl, Hbn, Hb, String.eqb_refl. simpl.
+  destruct u as [le| |]; simpl; try reflexivity.
+  destruct Hu as [Hh [Hp Hn]]. rewrite Hh, Hp, Hn. reflexivity.
+Qed.
+
+Lemma next_ptr_cnt : forall e, eb_cnt (next_ptr e) = eb_cnt e.
+Proof.
+  intros e. unfold next_ptr.
+  destruct (Z.of_nat (eb_cnt e) =? Z.of_nat (eb_len e) - 1); [reflexivity|].
+  destruct (eb_len e =? List.length (eb_arr e))%nat; reflexivity.
+Qed.
+
+(* what a collated series without exemplars does to the parser state *)
+Lemma process_classic_fields : forall p s v n u t',
+  s_ex s = [] -> apply_u (p_tmp p) u v = Some t' ->
+  let p' := process_classic c p s v n u in
+  p_state p' = SCollecting /\ p_typ p' = p_typ p /\ p_bname p' = p_bname p /\ p_ts p' = p_ts p /\
+  p_tmp p' = t' /\ eb_cnt (p_ex p') = eb_cnt (p_ex p) /\ p_oom p' = p_oom p /\ p_tmpts p' = p_ts p /\
+  (p_state p = SCollecting ->
+     p_tmpl p' = p_tmpl p /\ p_tmpst p' = p_tmpst p /\ p_lastname p' = p_lastname p /\
+     p_lasthash p' = p_lasthash p) /\
+  (p_state p <> SCollecting ->
+     p_tmpl p' = metric_base (s_lset s) n /\ p_tmpst p' = (if parse_st c then s_st s else 0) /\
+     p_lastname p' = n /\ p_lasthash p' = without (s_lset s) [LE]).
+Proof.
+  intros p s v n u t' Hex Ha p'. subst p'. unfold process_classic. rewrite Hex.
+  assert (Hu : (let '(tmp, oom) :=
+                  match u, v with
+                  | USum, _ => (set_sum (p_tmp p) v, false)
+                  | UCount, Fin z => (set_count (p_tmp p) z, false)
+                  | UBucket le, Fin z => match set_bucket (p_tmp p) le z with
+                                         | Some t => (t, false) | None => (p_tmp p, true) end
+                  | _, _ => (p_tmp p, true)
+                  end in (tmp, oom)) = (t', false)).
+  { unfold apply_u in Ha. destruct u as [le| |]; destruct v; try discriminate; try (inversion Ha; reflexivity).
+    destruct (set_bucket (p_tmp p) le z); inversion Ha; reflexivity. }
+  destruct (p_state p) eqn:Es; simpl;
+    (match goal with |- context [match ?u0 with UBucket _ => _ | UCount => _ | USum => _ end] => idtac end);
+    cbn [p_tmp p_state p_typ p_bname p_ts p_tmpl p_ex p_tmpst p_lastname p_lasthash p_oom] in *.
+  all: match type of Hu with (let '(tmp, oom) := ?X in _) = _ =>
+         destruct X as [tmp oom] eqn:EX; inversion Hu; subst tmp oom end.
+  all: cbn; rewrite next_ptr_cnt, orb_false_r.
+  all: repeat split; auto; try (intros; congruence); try (intros X; exfalso; apply X; reflexivity).
+Qed.
+
 End Steps.
+
 
 (* ------------------------------------------------------------------ TempHistogram *)
 
@@ -246,6 +384,14 @@ Qed.
 Definition top (l : list bucket) : Z := last (map snd l) 0.
 
 Lemma last_cons_default : forall (l : list Z) x d, last (x :: l) d = last l x.
+Proof.
+  induction l as [|y r IH]; intros x d; [reflexivity|].
+  change (last (x :: y :: r) d) with (last (y :: r) d). rewrite IH.
+  change (last (y :: r) x) with (match r with [] => y | _ => last r x end).
+  destruct r; [reflexivity|]. rewrite <- (IH y x). reflexivity.
+Qed.
+
+Lemma last_cons_default' : forall {A} (l : list A) x d, last (x :: l) d = last l x.
 Proof.
   induction l as [|y r IH]; intros x d; [reflexivity|].
   change (last (x :: y :: r) d) with (last (y :: r) d). rewrite IH.
@@ -327,3 +473,168 @@ Proof.
     + apply last_opt_none in EL. subst fin.
       destruct cnt as [c0|]; cbn; rewrite ?Z.eqb_refl; unfold top; cbn; rewrite ?Z.sub_0_r; reflexivity.
 Qed.
+
+Section OneHist.
+Variable parse_le : string -> option num.
+Variable c : cfg.
+Hypothesis no_keep : keep_classic c = false.
+
+Definition to_series (m : mem) : bentry := BSeries (m_sample m) (m_val m).
+Definition good_member (n : string) (key : labels) (m : mem) : Prop :=
+  member parse_le n key (m_sample m) (m_upd m) /\ s_ex (m_sample m) = [].
+
+Lemma member_not_different : forall p n key s u,
+  p_typ p = T_HISTOGRAM -> p_lastname p = n -> p_lasthash p = key ->
+  member parse_le n key s u -> different_metric p (s_lset s) = false.
+Proof.
+  intros p n key s u Ht Hn Hk [Hb [Hw _]]. unfold different_metric.
+  rewrite Ht, Z.eqb_refl, Hn, Hb, Hk, Hw. simpl. rewrite String.eqb_refl, labels_eqb_refl. reflexivity.
+Qed.
+
+(* the series of one histogram, read while collecting: all swallowed, the TempHistogram
+   accumulates, label set / start timestamp of the collection stay, p.ts follows *)
+Lemma collecting_run : forall n key ms p t',
+  p_state p = SCollecting -> p_typ p = T_HISTOGRAM -> p_bname p = n ->
+  p_lastname p = n -> p_lasthash p = key ->
+  Forall (good_member n key) ms ->
+  apply_all (p_tmp p) ms = Some t' ->
+  exists p', run_from parse_le c p (map to_series ms) = (p', []) /\
+    p_state p' = SCollecting /\ p_tmp p' = t' /\ p_tmpl p' = p_tmpl p /\ p_tmpst p' = p_tmpst p /\
+    eb_cnt (p_ex p') = eb_cnt (p_ex p) /\
+    p_ts p' = last (map (fun m => s_ts (m_sample m)) ms) (p_ts p) /\
+    p_tmpts p' = last (map (fun m => s_ts (m_sample m)) ms) (p_tmpts p).
+Proof.
+  intros n key ms. induction ms as [|m r IH]; intros p t' Hs Ht Hb Hn Hk Hall Ha.
+  - simpl in Ha. inversion Ha; subst. exists p. simpl. repeat split; auto.
+  - apply Forall_cons_iff in Hall. destruct Hall as [[Hm Hex] Hr].
+    simpl in Ha. destruct (apply_u (p_tmp p) (m_upd m) (m_val m)) as [t1|] eqn:E1; [|discriminate].
+    set (q := set_ts p (s_ts (m_sample m))).
+    assert (Hd : different_metric q (s_lset (m_sample m)) = false)
+      by (eapply member_not_different; eauto).
+    assert (Hstep : step parse_le c p (to_series m) =
+                    (process_classic c q (m_sample m) (m_val m) n (m_upd m), [])).
+    { unfold to_series. rewrite step_series_eq. cbv zeta. fold q.
+      replace (p_state q) with SCollecting by (symmetry; exact Hs). rewrite Hd.
+      rewrite (handle_member parse_le c q n key _ _ _ Ht Hb Hm).
+      unfold emit_series. rewrite no_keep. reflexivity. }
+    pose proof (process_classic_fields c q (m_sample m) (m_val m) n (m_upd m) t1 Hex E1) as PF.
+    cbv zeta in PF. destruct PF as [F1 [F2 [F3 [F4 [F5 [F6 [F7 [F8 [F9 _]]]]]]]]].
+    destruct (F9 Hs) as [G1 [G2 [G3 G4]]].
+    set (p1 := process_classic c q (m_sample m) (m_val m) n (m_upd m)) in *.
+    assert (Ha1 : apply_all (p_tmp p1) r = Some t') by (rewrite F5; exact Ha).
+    assert (Ht1 : p_typ p1 = T_HISTOGRAM) by (rewrite F2; exact Ht).
+    assert (Hb1 : p_bname p1 = n) by (rewrite F3; exact Hb).
+    assert (Hn1 : p_lastname p1 = n) by (rewrite G3; exact Hn).
+    assert (Hk1 : p_lasthash p1 = key) by (rewrite G4; exact Hk).
+    destruct (IH p1 t' F1 Ht1 Hb1 Hn1 Hk1 Hr Ha1) as [p' [Hrun [R1 [R2 [R3 [R4 [R5 [R6 R7]]]]]]]].
+    exists p'. split.
+    + rewrite map_cons, run_from_cons, Hstep, Hrun. reflexivity.
+    + split; [exact R1|]. split; [exact R2|]. split; [rewrite R3, G1; reflexivity|].
+      split; [rewrite R4, G2; reflexivity|]. split; [rewrite R5, F6; reflexivity|]. split.
+      * rewrite R6, F4. change (map (fun m0 => s_ts (m_sample m0)) (m :: r))
+          with (s_ts (m_sample m) :: map (fun m0 => s_ts (m_sample m0)) r).
+        rewrite last_cons_default'. reflexivity.
+      * rewrite R7, F8. change (map (fun m0 => s_ts (m_sample m0)) (m :: r))
+          with (s_ts (m_sample m) :: map (fun m0 => s_ts (m_sample m0)) r).
+        rewrite last_cons_default'. reflexivity.
+Qed.
+
+
+Lemma run_from_app : forall a b p,
+  run_from parse_le c p (a ++ b) =
+  let '(p1, o1) := run_from parse_le c p a in
+  let '(p2, o2) := run_from parse_le c p1 b in (p2, o1 ++ o2).
+Proof.
+  induction a as [|e r IH]; intros b p.
+  - simpl. destruct (run_from parse_le c p b); reflexivity.
+  - rewrite <- app_comm_cons, !run_from_cons.
+    destruct (step parse_le c p e) as [p1 o1]. rewrite IH.
+    destruct (run_from parse_le c p1 r) as [p2 o2].
+    destruct (run_from parse_le c p2 b) as [p3 o3]. rewrite app_assoc. reflexivity.
+Qed.
+
+Definition is_meta (e : bentry) : bool :=
+  match e with BType _ _ | BOther _ _ _ => true | _ => false end.
+
+(* what the end of a collection emits *)
+Lemma flush_collecting : forall p nh,
+  p_state p = SCollecting -> convert (p_tmp p) = Some nh -> validate nh = true ->
+  snd (process_nhcb c p) =
+  [ONhcb (mkS (p_tmpl p) (if fix_ts c then p_tmpts p else p_ts p) (p_tmpst p)
+              (firstn (eb_cnt (p_ex p)) (eb_arr (p_ex p)))) nh].
+Proof.
+  intros p nh Hs Hc Hv. unfold process_nhcb. rewrite Hs, Hc, Hv. reflexivity.
+Qed.
+
+(* One classic histogram: starting in the start state under `TYPE n histogram`, the series of
+   one label set (any order of bucket/count/sum series that the TempHistogram accepts), then a
+   TYPE/HELP/UNIT/comment entry or the end of input.  Nothing is emitted for the series, then
+   exactly one converted histogram: the conversion of what the TempHistogram accumulated, under
+   the label set without le and with the base name, the series' timestamp and the start
+   timestamp of the first series. *)
+Theorem one_histogram : forall n key m0 ms p t' nh,
+  p_state p = SStart -> p_typ p = T_HISTOGRAM -> p_bname p = n -> p_tmp p = th_empty ->
+  eb_cnt (p_ex p) = 0%nat ->
+  Forall (good_member n key) (m0 :: ms) ->
+  apply_all th_empty (m0 :: ms) = Some t' ->
+  convert t' = Some nh -> validate nh = true ->
+  let hist := ONhcb (mkS (metric_base (s_lset (m_sample m0)) n)
+                         (last (map (fun m => s_ts (m_sample m)) (m0 :: ms)) None)
+                         (if parse_st c then s_st (m_sample m0) else 0) []) nh in
+  (forall e, is_meta e = true ->
+     snd (run_from parse_le c p (map to_series (m0 :: ms) ++ [e])) = [hist; to_o e]) /\
+  (let '(p', out) := run_from parse_le c p (map to_series (m0 :: ms)) in
+   out ++ snd (process_nhcb c p') = [hist]).
+Proof.
+  intros n key m0 ms p t' nh Hs Ht Hb Htmp Hcnt Hall Ha Hc Hv hist.
+  apply Forall_cons_iff in Hall. destruct Hall as [[Hm Hex] Hr].
+  simpl in Ha. destruct (apply_u th_empty (m_upd m0) (m_val m0)) as [t1|] eqn:E1; [|discriminate].
+  set (q := set_ts p (s_ts (m_sample m0))).
+  assert (Hstep : step parse_le c p (to_series m0) =
+                  (process_classic c q (m_sample m0) (m_val m0) n (m_upd m0), [])).
+  { unfold to_series. rewrite step_series_eq. cbv zeta. fold q.
+    replace (p_state q) with SStart by (symmetry; exact Hs).
+    rewrite (handle_member parse_le c q n key _ _ _ Ht Hb Hm).
+    unfold emit_series. rewrite no_keep. reflexivity. }
+  assert (E1' : apply_u (p_tmp q) (m_upd m0) (m_val m0) = Some t1)
+    by (change (p_tmp q) with (p_tmp p); rewrite Htmp; exact E1).
+  pose proof (process_classic_fields c q (m_sample m0) (m_val m0) n (m_upd m0) t1 Hex E1') as PF.
+  cbv zeta in PF. destruct PF as [F1 [F2 [F3 [F4 [F5 [F6 [F7 [F8 [_ F10]]]]]]]]].
+  assert (Hq : p_state q <> SCollecting) by (change (p_state q) with (p_state p); congruence).
+  destruct (F10 Hq) as [G1 [G2 [G3 G4]]].
+  set (p1 := process_classic c q (m_sample m0) (m_val m0) n (m_upd m0)) in *.
+  assert (Hk : p_lasthash p1 = key) by (rewrite G4; destruct Hm as [_ [Hw _]]; exact Hw).
+  assert (Ha1 : apply_all (p_tmp p1) ms = Some t') by (rewrite F5; exact Ha).
+  assert (Ht1 : p_typ p1 = T_HISTOGRAM) by (rewrite F2; exact Ht).
+  assert (Hb1 : p_bname p1 = n) by (rewrite F3; exact Hb).
+  destruct (collecting_run n key ms p1 t' F1 Ht1 Hb1 G3 Hk Hr Ha1)
+    as [p' [Hrun [R1 [R2 [R3 [R4 [R5 [R6 R7]]]]]]]].
+  assert (Hrun0 : run_from parse_le c p (map to_series (m0 :: ms)) = (p', [])).
+  { rewrite map_cons, run_from_cons, Hstep, Hrun. reflexivity. }
+  assert (Hts : (if fix_ts c then p_tmpts p' else p_ts p') =
+                last (map (fun m => s_ts (m_sample m)) (m0 :: ms)) None).
+  { change (map (fun m => s_ts (m_sample m)) (m0 :: ms))
+      with (s_ts (m_sample m0) :: map (fun m => s_ts (m_sample m)) ms).
+    rewrite last_cons_default', R6, R7, F4, F8. destruct (fix_ts c); reflexivity. }
+  assert (Hcnt' : eb_cnt (p_ex p') = 0%nat).
+  { rewrite R5, F6. exact Hcnt. }
+  assert (Hflush : forall p2, p_state p2 = SCollecting -> p_tmp p2 = p_tmp p' -> p_tmpl p2 = p_tmpl p' ->
+             p_tmpts p2 = p_tmpts p' -> p_ts p2 = p_ts p' -> p_tmpst p2 = p_tmpst p' -> p_ex p2 = p_ex p' ->
+             snd (process_nhcb c p2) = [hist]).
+  { intros p2 A1 A2 A3 A4 A5 A6 A7. rewrite (flush_collecting p2 nh A1); [|rewrite A2, R2; exact Hc|exact Hv].
+    rewrite A3, A4, A5, A6, A7, Hts, Hcnt', R3, R4, G1, G2. reflexivity. }
+  split.
+  - intros e He. rewrite run_from_app, Hrun0.
+    destruct e as [s v|s hid|n2 t2|k a b]; try discriminate.
+    + simpl.
+      match goal with |- context [process_nhcb c ?P] =>
+        pose proof (Hflush P R1 eq_refl eq_refl eq_refl eq_refl eq_refl eq_refl) as HF;
+        destruct (process_nhcb c P) as [[b0 p3] fl] end.
+      simpl in HF. subst fl. reflexivity.
+    + simpl.
+      pose proof (Hflush p' R1 eq_refl eq_refl eq_refl eq_refl eq_refl eq_refl) as HF.
+      destruct (process_nhcb c p') as [[b0 p3] fl]. simpl in HF. subst fl. reflexivity.
+  - rewrite Hrun0. simpl. apply Hflush; auto.
+Qed.
+
+End OneHist.
